@@ -292,8 +292,16 @@ def run(model: RepoModel, rep, tier: str):
                     attr = a0.attr if isinstance(a0, ast.Attribute) else alias.get(getattr(a0, "id", None))
                     if attr == "body":
                         body_vars.add(n.targets[0].id)
+            def is_body_arg(a) -> bool:
+                """the loop body, either through a local bound to read_block(<body>) or as that call itself"""
+                if isinstance(a, ast.Name):
+                    return a.id in body_vars
+                if isinstance(a, ast.Call) and is_self_attr(a.func, "read_block") and a.args:
+                    a0_ = a.args[0]
+                    return (a0_.attr if isinstance(a0_, ast.Attribute) else alias.get(getattr(a0_, "id", None))) == "body"
+                return False
             all_body_calls = [n for n in walk_no_nested(h.node) if isinstance(n, ast.Call) and is_self_attr(n.func, "analyze_block")
-                              and n.args and isinstance(n.args[0], ast.Name) and n.args[0].id in body_vars]
+                              and n.args and is_body_arg(n.args[0])]
             body_calls = [n for n in all_body_calls if any(isinstance(a, ast.Name) and a.id == fv for a in n.args)]
             if not all_body_calls:
                 probs.append("the loop body is not analysed")
